@@ -111,7 +111,9 @@ PoolChecks(ln, wPre, wPost) ==
     IN << Chk("C02", "pool-dump-readable", ln.obs.pool.ok),
           Chk("C17", "pool-dump-wellformed", PWellFormed(lp)),
           Chk("C02", "pool-dump-alive-set",
-              PAliveSet(lp) = wPost.alive /\ { lp.ents[ln.obs.pool.alive[i] + 1] : i \in DOMAIN ln.obs.pool.alive } = wPost.alive),
+              PAliveSet(lp) = wPost.alive
+              /\ { IF ln.obs.pool.alive[i] + 1 \in DOMAIN lp.ents THEN lp.ents[ln.obs.pool.alive[i] + 1] ELSE << -1, -1 >>
+                    : i \in DOMAIN ln.obs.pool.alive } = wPost.alive),
           Chk("DRIFT", "pool-evolves-as-modelled", pred) >>
 
 (* Registered filters select exactly what their originals select (C07). *)
